@@ -174,6 +174,10 @@ class C15(common.Spec):
             frozen = []
             for attempt in (lambda: edzed.Input('late_block', initdef=0),
                             lambda: edzed.FuncBlock('late2', func=len),
+                            # blocks with automatic / reserved names are blocks as well
+                            lambda: edzed.Input(None, initdef=0),
+                            lambda: edzed.Not(None),
+                            lambda: edzed.Event('evsrc', 'put', repeat=1),
                             lambda: circuit.findblock('spare').connect(1),
                             lambda: circuit.set_persistent_data({}),
                             lambda: circuit.set_persistent_data(None)):
@@ -444,28 +448,6 @@ def check_connect_shapes(run, only=None):
                           clause='connect_shape:' + name, concrete=True)
 
 
-def _sig_expect(esig, shape):
-    """the documented meaning of check_signature(): same input names; None = a single input (not a
-    group of any size), an int = a group of exactly that size, (min, max) = a group within the bounds"""
-    if set(esig) != set(shape):
-        return False
-    for name, exp in esig.items():
-        val = shape[name]                   # None = single input, int = group size
-        if exp is None:
-            if val is not None:
-                return False
-        elif val is None:
-            return False
-        elif isinstance(exp, int):
-            if val != exp:
-                return False
-        else:
-            lo, hi = exp
-            if (lo is not None and val < lo) or (hi is not None and val > hi):
-                return False
-    return True
-
-
 def _start_shape_cases():
     exps = [None, 0, 1, 2, (1, None), (None, 1), (0, 2)]
     vals = [None, 0, 1, 2, 3]
@@ -478,6 +460,8 @@ def _start_shape_cases():
     out.append(('unnamed_group_as_single', {'_': None}, {'_': 1}))
     out.append(('unnamed_group_1', {'_': 1}, {'_': 1}))
     out.append(('unnamed_group_2_for_1', {'_': 1}, {'_': 2}))
+    out.append(('three_names', {'a': (2, None), 'b': 0, 'c': None}, {'c': None, 'a': 3, 'b': 0}))
+    out.append(('three_names_one_short', {'a': (2, None), 'b': 0, 'c': None}, {'c': None, 'a': 1, 'b': 0}))
     # the library's own blocks
     out.append(('lib_not_1', 'Not', {'_': 1}))
     out.append(('lib_not_2', 'Not', {'_': 2}))
@@ -491,20 +475,33 @@ def _start_shape_cases():
 LIB_SIGS = {'Not': {'_': 1}, 'Override': {'input': None, 'override': None}}
 
 
-def check_start_shapes(run, only=None):
-    """'wrongly shaped inputs make ... the start fail': a block that declares its input signature
-    (check_signature() from start()) starts iff the connected shape matches it; otherwise the simulation
-    does not start. Exhaustive over expected None / n / (min, max) x actual single / group of 0..3."""
-    import asyncio
-    from . import vloop
-    for name, esig, shape in _start_shape_cases():
-        if only is not None and name != only:
-            continue
-        obs = dict(started=None, error=None, harness=None)
-        lib = esig if isinstance(esig, str) else None
-        want = _sig_expect(LIB_SIGS[lib] if lib else esig, shape)
+def _c_expect(e):
+    if e is None:
+        return 'ExSingle'
+    if isinstance(e, int):
+        return f"ExCount {common.cnat(e)}"
+    return f"ExRange {copt(e[0], common.cnat)} {copt(e[1], common.cnat)}"
 
-        async def main(loop, esig=esig, shape=shape, lib=lib, obs=obs):
+
+class C15Sig(common.Spec):
+    """check_signature(): the declared input shapes against the connected ones; model Signature.v"""
+    imports = "From Verif Require Import Values Signature."
+    case_type = 'sigcase'
+    verdict_fn = 'sig_verdict'
+    shard = 100
+    table = {name: (esig, shape) for name, esig, shape in _start_shape_cases()}
+
+    def run_impl(self, cases):
+        return [self._run_one(c) for c in cases]
+
+    def _run_one(self, case):
+        import asyncio
+        from . import vloop
+        esig, shape = self.table[case['start_shape']]
+        obs = dict(started=None, error=None)
+        lib = esig if isinstance(esig, str) else None
+
+        async def main(loop):
             edzed.reset_circuit()
             circuit = edzed.get_circuit()
             src = edzed.Input('src', initdef=False)
@@ -525,7 +522,7 @@ def check_start_shapes(run, only=None):
                 else:
                     kwargs[iname] = v
             blk.connect(*args, **kwargs)
-            task = asyncio.create_task(circuit.run_forever())
+            asyncio.create_task(circuit.run_forever())
             try:
                 await circuit.wait_init()
                 obs['started'] = True
@@ -539,19 +536,42 @@ def check_start_shapes(run, only=None):
         try:
             vloop.run_virtual(main, wall_limit_s=10.0)
         except BaseException as err:             # noqa
-            obs['harness'] = repr(err)[:200]
+            raise common.HarnessProblem(f"start-shape case {case}: {err!r}") from err
         finally:
             edzed.reset_circuit()
-        run.add_case(dict(start_shape=name), True)
-        run.count('start_shape')
-        ok = obs['harness'] is None and obs['started'] == want
-        run.add_obligation(ok)
-        if not ok:
-            run.violation('monitor', dict(case=dict(start_shape=name), observed=obs),
-                          f"block expecting inputs {LIB_SIGS[lib] if lib else esig} connected with the shape {shape} "
-                          f"(None = single input, n = group of n): started={obs['started']} "
-                          f"(expected {want}), error {obs['error']}; harness: {obs['harness']}",
-                          clause='start_shape:' + name, concrete=True)
+        return obs
+
+    def emit(self, case, obs):
+        esig, shape = self.table[case['start_shape']]
+        if isinstance(esig, str):
+            esig = LIB_SIGS[esig]
+        exp = clist(list(esig.items()), lambda kv: cpair(cstr(kv[0]), _c_expect(kv[1])))
+        shp = clist(list(shape.items()), lambda kv: cpair(cstr(kv[0]), copt(kv[1], common.cnat)))
+        return f"{{| sc_exp := {exp}; sc_shape := {shp}; sc_started := {cbool(obs['started'] is True)} |}}"
+
+    def nontrivial(self, case, obs):
+        return True
+
+    def clause(self, case, obs):
+        return 'start_shape:' + case['start_shape']
+
+    def describe(self, case, obs):
+        esig, shape = self.table[case['start_shape']]
+        return (f"block expecting inputs {LIB_SIGS[esig] if isinstance(esig, str) else esig} connected with the "
+                f"shape {shape} (None = single input, n = group of n; expectation None = single, n = exactly n, "
+                f"(min, max) = bounds): started={obs['started']}, error {obs['error']} - the model "
+                f"(Signature.sig_ok) says the opposite")
+
+
+def check_start_shapes(run, only=None):
+    """'wrongly shaped inputs make ... the start fail': a block that declares its input signature
+    (check_signature() from start()) starts iff the connected shape matches it (model Signature.v,
+    theorems C15_signature_*); otherwise the simulation does not start. Exhaustive over expected
+    None / n / (min, max) x actual single / group of 0..3, plus names missing / unexpected and the
+    library's Not and Override."""
+    cases = [dict(start_shape=name) for name, _, _ in _start_shape_cases() if only is None or name == only]
+    run.count('start_shape', len(cases))
+    return common.standard_flow(run, C15Sig(), cases)
 
 
 def replay(run, path):
